@@ -292,6 +292,9 @@ func genCrash(r *Rng, i int, tier string) string {
 	if r.Chance(15) {
 		s += " badrow=1" // an unparsable row is handed out first
 	}
+	if r.Chance(12) {
+		s += " tempjob=1" // --warc-temp-dir is the job directory itself
+	}
 	switch i % 5 {
 	case 0, 1, 2:
 		s += fmt.Sprintf(" kill=%s:%d", crashPoints[(i/5*3+i%5)%len(crashPoints)], 1+r.Intn(5))
